@@ -143,6 +143,11 @@ pub fn with_virtual_clock<R>(f: impl FnOnce() -> R) -> R {
 /// Build the model zone in hickory: `upsert_mut` every RRset, add the zone signing key, sign with
 /// NSEC or NSEC3.
 pub fn build_hk_zone(z: &Zone, kind: &NxKind) -> Result<HkZone, String> {
+    build_hk_zone_with(z, kind, &[])
+}
+
+/// as `build_hk_zone`, with further records (outside the model) added before signing
+pub fn build_hk_zone_with(z: &Zone, kind: &NxKind, extra: &[(Name, RData)]) -> Result<HkZone, String> {
     with_virtual_clock(|| {
         let apex = to_name(&z.apex);
         let nx = match kind {
@@ -173,6 +178,9 @@ pub fn build_hk_zone(z: &Zone, kind: &NxKind) -> Result<HkZone, String> {
                 }
                 ok &= h.upsert_mut(Record::from_rdata(name.clone(), 3600, rdata_for(*t)), 0);
             }
+        }
+        for (n, d) in extra {
+            ok &= h.upsert_mut(Record::from_rdata(n.clone(), 3600, d.clone()), 0);
         }
         if !ok {
             return Err("upsert refused a record".into());
